@@ -13,7 +13,10 @@ package hstream
 import (
 	"bytes"
 	"context"
+	"crypto/sha256"
+	"encoding/hex"
 	"errors"
+	"fmt"
 	"io"
 	"os"
 	"sort"
@@ -29,26 +32,26 @@ var ErrBroken = errors.New("hstream: stream broken")
 var ErrPeerGone = errors.New("hstream: peer has gone away")
 
 type pipe struct {
-	mu     sync.Mutex
-	ch     chan []byte
-	eof    chan struct{} // closed when the writing end is torn down
-	broken chan struct{} // closed when the reading end is torn down
+	mu                  sync.Mutex
+	ch                  chan []byte
+	eof                 chan struct{} // closed when the writing end is torn down
+	broken              chan struct{} // closed when the reading end is torn down
 	eofOnce, brokenOnce sync.Once
 }
 
 // Conn is one bidirectional stream.
 type Conn struct {
-	mu     sync.Mutex
-	seq    int
-	events []vt.Ev
-	brk    chan struct{}
+	mu      sync.Mutex
+	seq     int
+	events  []vt.Ev
+	brk     chan struct{}
 	brkOnce sync.Once
-	S, R   *Endpoint // S is used by the sending side (fsutil.Send), R by Receive
+	S, R    *Endpoint // S is used by the sending side (fsutil.Send), R by Receive
 
 	// annotation state for the S->R direction
-	statPaths []string          // path announced by the i-th STAT
+	statPaths []string // path announced by the i-th STAT
 	statEv    []vt.Ev
-	offs      map[uint32]int64  // bytes seen per id
+	offs      map[uint32]int64 // bytes seen per id
 	// Content returns the expected bytes of the file announced at STAT index id.
 	Content func(id uint32, path string) ([]byte, bool)
 	// Quiet suppresses per-packet events (used by large fan-out fault runs)
@@ -64,14 +67,14 @@ type Fault struct {
 }
 
 type Endpoint struct {
-	Name   string
-	c      *Conn
-	ctx    context.Context
-	cancel context.CancelFunc
-	in, out *pipe
-	sendN, recvN int32
+	Name           string
+	c              *Conn
+	ctx            context.Context
+	cancel         context.CancelFunc
+	in, out        *pipe
+	sendN, recvN   int32
 	inSend, inRecv int32
-	Faults []Fault
+	Faults         []Fault
 	// Gate, if set, is called before every operation (may sleep or block)
 	Gate func(op string, k int)
 	torn int32
@@ -303,6 +306,7 @@ func (c *Conn) describe(e *Endpoint, p *types.Packet, k int) vt.Ev {
 		c.statPaths = append(c.statPaths, p.Stat.Path)
 		c.mu.Unlock()
 		ev["stat"] = StatEv(p.Stat)
+		ev["sh"] = StatHash(p.Stat)
 		ev["reqable"] = os.FileMode(p.Stat.Mode)&os.ModeType == 0
 	case types.PACKET_REQ:
 		ev["id"] = int(p.ID)
@@ -336,6 +340,21 @@ func (c *Conn) describe(e *Endpoint, p *types.Packet, k int) vt.Ev {
 		return nil
 	}
 	return ev
+}
+
+// StatHash identifies a stat value (all fields) by a short hash of its encoding.
+func StatHash(st *types.Stat) string {
+	h := sha256.New()
+	fmt.Fprintf(h, "%q|%d|%d|%d|%d|%d|%q|%d|%d|", st.Path, st.Mode, st.Uid, st.Gid, st.Size, st.ModTime, st.Linkname, st.Devmajor, st.Devminor)
+	keys := make([]string, 0, len(st.Xattrs))
+	for k := range st.Xattrs {
+		keys = append(keys, k)
+	}
+	sort.Strings(keys)
+	for _, k := range keys {
+		fmt.Fprintf(h, "%q=%x;", k, st.Xattrs[k])
+	}
+	return hex.EncodeToString(h.Sum(nil)[:8])
 }
 
 // StatToEntry converts a wire stat into the abstract entry vocabulary.
